@@ -33,6 +33,23 @@ released (or constrained) together:
 The harness counts, from the solvers' verbose output, the runs whose factor was updated row by row and those with a call
 that changed >= 2 rows; the counts are part of the measured coverage (`rowmod`).
 The driver's work is quadratic in n on these systems; the systems are dealt to several driver processes.
+
+Two further streams (seeded changes C11-5 / C11-6):
+  11  LARGE dense staged release, n = 600..1600 (and 2200..2400 for the block rule of nnls_normal_block_updown): the only sizes at
+      which modify_factor still takes its row-by-row path for >= 2 rows after repo fix 20cd6bb (fl / (9*16*rows*modfl) > 1, i.e.
+      n > ~216 x rows on a dense factor): core released first, then ONE coefficient (its update request builds the full-size
+      factor), then a mutually coupled group of 2..6 released together (multi-row cholmod_rowadd, nH2 >= 2; counted from the
+      solver's own "Add <k> rows" lines).  One system in five is the large overshoot variant (everything released at once, a
+      planted group of 2..4 negative components constrained in one call: multi-row cholmod_rowdel), one in five has stages of
+      9..10 and 8..9 coefficients at n = 2200..2400 (the block rule of nnls_normal_block_updown).  A system is a function of its descriptor (generator seed and sizes), which is what a
+      replay carries.  Judged in the harness by the KKT residual in long double with the driver's tolerance formula; the same
+      long-double judge is run on every vector of kinds 8-10 and must agree with the exact driver there (tie of the judge).
+  12  "no improving trial step" corpus bin/props/C11_forced_corpus.txt (57 small integer systems found by
+      tools/c11_forced_search.cpp): some line search of nnls_normal_block3 has no trial that lowers the objective, so
+      walk_descents must take its last trial by the rule `i*n_threads + j == n_alpha-1`.  All four solvers at 1 line-search
+      worker, updown / block3 also at 2, 3 and 8 workers, each run under the hang watchdog; exact oracle (n <= 7: certificate,
+      enumeration, kktCheck).  Forced steps are counted on both sides (C: taken trial with d_res >= 0 in the verbose output;
+      model: B3State.nForced of the exact state machine) and must agree.
 """
 import json, os, re, struct
 import psvlib
@@ -43,7 +60,9 @@ KINDS = {0: "dense dyadic Gram", 1: "sparse dyadic Gram", 2: "degenerate (exact 
          4: "arbitrary doubles", 5: "large sparse", 6: "least-squares form", 7: "extremely scaled (D over 1e+-6), Cholesky-based solvers only",
          8: "dense integer Gram B'B+I, n 40..220",
          9: "staged release (dense signed-Laplacian+I core, chain of small groups freed together), n 30..220",
-         10: "overshoot (all freed first, a planted group of negative components constrained together), n 30..220"}
+         10: "overshoot (all freed first, a planted group of negative components constrained together), n 30..220",
+         11: "LARGE dense staged release (core, one coefficient, then coupled groups of 2..10 freed together), n 600..2400",
+         12: "no-improving-trial-step corpus (forced last step of walk_descents), n 4..7"}
 
 
 EXPECTED_CONSTANTS = {"KKT_TOL": 1e-6, "max_iter": 120, "block3_factor": 1e5}
@@ -177,7 +196,7 @@ def evaluate(ctx, consts, cases, impl, nref, acc, tag):
         name = SOLVERS[solver]
         if m[0] == "FAIL":
             acc["evaluations"] += 1
-            what = "%s %s on %s SPD system (n=%d, %s)" % (name, "did not terminate within the time limit in 3 attempts" if i.startswith("hang") else "aborted: " + i, spd_how(n), n, KINDS[kind])
+            what = "%s %s on %s SPD system (n=%d, %s)" % (name, "did not terminate within the time limit (%s line-search worker(s); every attempt)" % (w[4] if len(w) > 4 else "1") if i.startswith("hang") else "aborted: " + i, spd_how(n), n, KINDS[kind])
             ctx.report("%s:%s" % (name, i.split()[0]), sys_replay(cur, c, i), what)
             continue
         o = kv(out_of[idx]); info = kv(i.split("|")[1]) if "|" in i else {}
@@ -198,16 +217,40 @@ def evaluate(ctx, consts, cases, impl, nref, acc, tag):
             if tr_m == tr_c: acc["b3_trace_equal"] += 1
             else:
                 acc["b3_trace_diff"] += 1
-                if kind != 2:
+                # kind 12 is degenerate by selection: its runs pass through an accepted constraint-crossing step, after which the crossing
+                # coefficient is exactly 0 in exact arithmetic (stays passive, "descent at boundary" next) and +-1e-17 in the C run
+                if kind not in (2, 12):
                     acc["b3_trace_diff_nondegenerate"] += 1
                     if len(acc["b3_trace_diff_samples"]) < 3: acc["b3_trace_diff_samples"].append({"model": out_of[idx], "impl": i.split("|")[1].strip(), "system": cur[:400]})
                 acc["b3_trace_diff_by_kind"][KINDS[kind]] = acc["b3_trace_diff_by_kind"].get(KINDS[kind], 0) + 1
             if o.get("walk") not in (None, "0"): acc["b3_model_walks"] += 1
+            # forced last step of walk_descents (no trial reduced the residual): counted by the exact state machine and, from the
+            # verbose output, in the C run; on the corpus (kind 12) the two must agree for every worker count
+            mf, cf = int(o.get("forced", "0")), int(info.get("forced", "0"))
+            thr = info.get("threads", "1")
+            if mf > 0: acc["forced_model_runs"] += 1
+            if kind == 12:
+                fs = acc["forced_by_threads"].setdefault(thr, {"block3_runs": 0, "runs_with_forced_step_C": 0, "runs_with_forced_step_model": 0, "forced_steps_C": 0, "forced_steps_model": 0, "count_differs": 0})
+                fs["block3_runs"] += 1; fs["forced_steps_C"] += cf; fs["forced_steps_model"] += mf
+                if cf > 0: fs["runs_with_forced_step_C"] += 1
+                if mf > 0: fs["runs_with_forced_step_model"] += 1
+                if (cf > 0) != (mf > 0) or (tr_m == tr_c and cf != mf):
+                    fs["count_differs"] += 1
+                    if len(acc["forced_diff_samples"]) < 3: acc["forced_diff_samples"].append({"model": out_of[idx], "impl": i.split("|")[1].strip(), "system": cur[:400]})
             continue
         # X line
         acc["evaluations"] += 1
         acc["by_solver"][name] = acc["by_solver"].get(name, 0) + 1
         if int(info.get("retries", "0")): acc["hang_retries"] += int(info["retries"])
+        if solver == 3 and int(info.get("forced", "0")) > 0: acc["block3_forced_step_runs"] += 1
+        if "ldkkt" in info and o.get("finite") == "1":
+            # the long-double judge of the large stream against the exact driver, on the same vector
+            acc["ld_judge_compared"] += 1
+            same = (info.get("ldkkt") == o.get("kkt") and info.get("ldnonneg") == o.get("nonneg") and info.get("ldnegok") == o.get("negok"))
+            if not same:
+                acc["ld_judge_differs"] += 1
+                ctx.tie_ok = False
+                if len(ctx.broken) < 5: ctx.broken.append({"kind": "long-double KKT judge of the harness disagrees with the exact driver", "harness": {k: v for k, v in info.items() if k.startswith("ld")}, "driver": out_of[idx], "system": cur[:300]})
         cap = info.get("cap") == "1"
         if cap: acc["cap_exits"][name] = acc["cap_exits"].get(name, 0) + 1
         for key in ("walk", "boundary"):
@@ -251,7 +294,10 @@ def evaluate(ctx, consts, cases, impl, nref, acc, tag):
 def new_acc():
     return {"systems": 0, "evaluations": 0, "not_spd_skipped": 0, "by_solver": {}, "cap_exits": {}, "cap_nonkkt": {}, "hang_retries": 0,
             "worst_rel": {}, "distinct": set(), "b3_runs": 0, "b3_exit_mismatch": 0, "b3_trace_equal": 0, "b3_trace_diff": 0,
-            "b3_trace_diff_by_kind": {}, "b3_trace_diff_nondegenerate": 0, "b3_trace_diff_samples": [], "b3_model_walks": 0, "block3_walk_cases": 0, "block3_boundary_cases": 0, "rowmod": {}, "violations_by_kind": {}, "violations_by_solver": {}, "medium_worst_need_over_tol": {}}
+            "b3_trace_diff_by_kind": {}, "b3_trace_diff_nondegenerate": 0, "b3_trace_diff_samples": [], "b3_model_walks": 0, "block3_walk_cases": 0, "block3_boundary_cases": 0, "rowmod": {}, "violations_by_kind": {}, "violations_by_solver": {}, "medium_worst_need_over_tol": {},
+            "forced_model_runs": 0, "forced_by_threads": {}, "forced_diff_samples": [], "block3_forced_step_runs": 0, "ld_judge_compared": 0, "ld_judge_differs": 0,
+            "model_instances": {"block_loop_cases": 0, "n_blocks_variant": {}, "add_rows_cases": 0, "add_rows_coupled": 0},
+            "big": {"systems": 0, "runs": 0, "by_solver": {}, "n": [], "worst_need_over_tol": 0.0, "secs": 0.0}}
 
 
 def run(ctx):
@@ -276,7 +322,157 @@ def run(ctx):
             continue
         dist[mode] = json.load(open(base + ".stats"))
         evaluate(ctx, consts, base + ".in", base + ".impl", NREF, acc, mode)
+        if ctx.violations >= 5: continue
+        corpus_stream(ctx, consts, exe, mode, acc, dist)
+        if mode == "shipped": big_stream(ctx, consts, exe, acc, dist, 10 if ctx.tier == "quick" else 40)
     finish(ctx, acc, dist, consts)
+
+
+CORPUS = os.path.join(psvlib.VERIF, "bin", "props", "C11_forced_corpus.txt")
+CORPUS_THREADS = "2,3,8"
+
+
+def corpus_stream(ctx, consts, exe, mode, acc, dist):
+    """kind 12: the no-improving-trial-step corpus, every solver, 1 and several line-search workers, hang watchdog 6 s x 2"""
+    base = os.path.join(ctx.scratch, "c11_corpus_" + mode)
+    rc, out, err = ctx.run([exe, "corpus", CORPUS, base + ".in", base + ".impl", base + ".stats", repr(consts["KKT_TOL"]), "6", CORPUS_THREADS],
+                           timeout=1200, env={"OMP_NUM_THREADS": "1", "GOTO_NUM_THREADS": "1"})
+    if rc != 0:
+        ctx.tie_ok = False
+        ctx.violation({"harness_rc": rc, "stderr": err[-2000:], "replay_cmd": "python3 bin/check.py C11 --tier %s" % ctx.tier},
+                      "NNLS harness (corpus stream) %s (rc=%d): %s" % ("timed out" if rc == 124 else "aborted", rc, err[-600:]))
+        return
+    st = json.load(open(base + ".stats")); dist["corpus_" + mode] = st
+    if st.get("kind12", 0) + st.get("corpus_skipped_after_hangs", 0) < 20 or st.get("corpus_bad_lines", 0):
+        ctx.tie_ok = False; ctx.broken.append({"kind": "forced-step corpus missing or unreadable", "file": CORPUS, "stats": st})
+    evaluate(ctx, consts, base + ".in", base + ".impl", NREF, acc, "corpus-" + mode)
+    model_instances(ctx, base, acc)
+
+
+def model_instances(ctx, base, acc):
+    """The two small models behind the new theorems, executed by the driver on what the C runs of the corpus showed:
+    BL: for every (line-search workers T, index k of a forced step printed by walk_descents) the result loop as written
+        (blockLoop, T workers, n_alpha = k+1, no trial reduces the residual) must choose k with feasible = 0 - the index the C code
+        took; the variant with the multiplier n_blocks (seeded change C11-6) is evaluated too and its verdict recorded;
+    AR: rows added to the full-size factor of each corpus matrix (addRows: two and three rows, passive set = the rest): every
+        cholmod_rowadd inside its precondition and the represented matrix equal to A on the enlarged set; with the sets settled
+        first (addRowsSettled, C11-2 / C11-5) the second rowadd is outside its precondition exactly when the first two rows are coupled."""
+    if not ctx.driver_ok(): return
+    pairs = set(); systems = []
+    for c, i in zip(open(base + ".in").read().splitlines(), open(base + ".impl").read().splitlines()):
+        if c.startswith("SYS"): systems.append(c); continue
+        if not i.startswith("ok") or "|" not in i: continue
+        info = kv(i.split("|")[1])
+        if info.get("fidx", "-") != "-":
+            for k in info["fidx"].split(","): pairs.add((int(info.get("threads", "1")), int(k)))
+    lines = []; expect = []
+    for (t, k) in sorted(pairs):
+        m = k + 1
+        lines.append("BL %d %d %d 0" % (t, m, t)); expect.append(("bl", t, k, "written"))
+        lines.append("BL %d %d %d 0" % (t, m, (m + t - 1) // t)); expect.append(("bl", t, k, "n_blocks"))
+    for sl in systems:
+        n = int(sl.split()[3])
+        if n < 4: continue
+        lines.append(sl + " 0"); expect.append(("sys",))
+        lines.append("AR %s %d %d %d" % (sl.split()[1], n, n - 2, n - 1)); expect.append(("ar", 2))
+        lines.append("AR %s %d %d %d %d" % (sl.split()[1], n, 1, n - 1, 2)); expect.append(("ar", 3))
+    fn = base + ".inst"
+    open(fn, "w").write("\n".join(lines) + "\n")
+    if not ctx.run_driver("C11", fn, fn + ".out"):
+        ctx.tie_ok = False; ctx.broken.append({"kind": "driver failed on the model instance checks"}); return
+    out = open(fn + ".out").read().splitlines()
+    if len(out) != len(lines):
+        ctx.tie_ok = False; ctx.broken.append({"kind": "driver output truncated (model instance checks)", "want": len(lines), "got": len(out)}); return
+    inst = acc["model_instances"]
+    for ln, ex, o in zip(lines, expect, out):
+        r = kv(o)
+        if ex[0] == "bl":
+            if ex[3] == "written":
+                inst["block_loop_cases"] += 1
+                if not (r.get("chosen") == str(ex[2]) and r.get("feasible") == "0" and r.get("base") == "0"):
+                    ctx.tie_ok = False; ctx.broken.append({"kind": "blockLoop (result loop of walk_descents as written) does not choose the forced index the C run took", "input": ln, "model": o, "workers": ex[1], "index": ex[2]})
+            else:
+                key = "T=%d n_alpha=%d" % (ex[1], ex[2] + 1)
+                inst["n_blocks_variant"][key] = "never steps (hang)" if r.get("chosen") == "none" else ("steps at %s" % r.get("chosen"))
+        elif ex[0] == "ar":
+            inst["add_rows_cases"] += 1
+            ok = r.get("written") == "some" and r.get("represents") == "1" and ((r.get("settled") == "none") == (r.get("coupled") == "1"))
+            if r.get("coupled") == "1": inst["add_rows_coupled"] += 1
+            if not ok:
+                ctx.tie_ok = False; ctx.broken.append({"kind": "addRows / addRowsSettled instance contradicts modify_factor_add_rows_represents / modify_factor_settle_first_breaks_rowadd", "input": ln[:200], "model": o})
+
+
+BIG_CONSTRUCTION = ("integer symmetric matrix, strictly diagonally dominant with a_ii = 1 + sum_j |a_ij| (+ ridge on the staged coefficients): dense core with "
+                    "couplings -(1..3) and b = 1..16, then stages Q_1, Q_2, ...: every member coupled by -(1..3) to 1..3 members of the previous stage and "
+                    "(probability 0.9) to every other member of its own stage, b = 0 or -(1..4)/16; optional scaling D A D by powers of two; indices "
+                    "permuted; all drawn from Rng(2*gseed+1) in harness/nnls_harness.cpp: gen_big. descriptor = gseed n perm_style scaled core_density/10 ridge #planted_negative #stages sizes...; with a planted negative group (overshoot) the last members of the core get x0 = -(1..7)/8, positive couplings to the rest of the core and b = A x0 on the core")
+
+
+def big_report(ctx, name, solver, tolbits, desc, status, info, ld, vec, what):
+    d = desc.split()
+    rep = {"stream": KINDS[11], "descriptor": desc, "n": int(d[1]), "planted_negative_group": int(d[6]), "stage_sizes": [int(v) for v in d[8:]], "construction": BIG_CONSTRUCTION,
+           "solver": solver, "tolbits": tolbits, "impl_line": (status + " | " + info)[:2000], "judge": ld,
+           "replay_cmd": "python3 bin/check.py C11 --replay <this file>",
+           "all_entries": "PSV_NNLS_DUMPSYS=<file> nnls_harness bigreplay <out> <kkt_tol> <hang_s> <solver> <descriptor> writes the full system (SYS line, bit patterns)"}
+    if vec: rep["returned_vector_bits"] = vec
+    ctx.report(name, rep, what)
+
+
+def big_judge(ctx, consts, lines, acc):
+    for line in lines:
+        f = [p.strip() for p in line.split(";")]
+        if len(f) < 6 or not f[0].startswith("BIG"): continue
+        w = f[0].split(); solver = int(w[2]); tolbits = w[3]; desc = f[1]; status = f[2]; info = kv(f[3]); ld = kv(f[4]); n = int(desc.split()[1])
+        name = SOLVERS[solver]; big = acc["big"]
+        big["runs"] += 1; acc["evaluations"] += 1; acc["by_solver"][name] = acc["by_solver"].get(name, 0) + 1
+        try: big["secs"] += float(kv(f[5]).get("secs", "0"))
+        except ValueError: pass
+        where = "a by-construction SPD system (n=%d, %s; planted negative group %s, stages %s)" % (n, KINDS[11], desc.split()[6], desc.split()[8:])
+        if status != "ok":
+            big_report(ctx, "%s:%s" % (name, status.split()[0]), solver, tolbits, desc, status, f[3], ld, "",
+                       "%s %s on %s" % (name, "did not terminate within the time limit" if status.startswith("hang") else "aborted: " + status, where))
+            continue
+        bs = big["by_solver"].setdefault(name, {"runs": 0, "runs_with_row_updates": 0, "runs_with_multirow_add": 0, "multirow_add_calls": 0, "max_rows_in_one_call": 0, "runs_with_multirow_delete": 0})
+        bs["runs"] += 1
+        if int(info.get("rowadd", "0")) + int(info.get("rowdel", "0")) > 0: bs["runs_with_row_updates"] += 1
+        if int(info.get("madd", "0")) > 0: bs["runs_with_multirow_add"] += 1
+        bs["multirow_add_calls"] += int(info.get("madd", "0"))
+        if int(info.get("mdel", "0")) > 0: bs["runs_with_multirow_delete"] += 1
+        bs["max_rows_in_one_call"] = max(bs["max_rows_in_one_call"], int(info.get("maxrows", "0")))
+        if info.get("cap") == "1": acc["cap_exits"][name] = acc["cap_exits"].get(name, 0) + 1
+        vec = f[6] if len(f) > 6 else ""
+        bad = None
+        if ld.get("ldfinite") != "1": bad = "returned a non-finite vector"
+        elif solver == 3 and ld.get("ldnonneg") != "1": bad = "returned a negative component (negpart=%s): the solver used by fitting must be exactly non-negative" % ld.get("ldnegpart")
+        elif ld.get("ldnegok") != "1": bad = "returned a component below -tolerance (negpart=%s)" % ld.get("ldnegpart")
+        elif ld.get("ldkkt") != "1": bad = "returned a point that is not a KKT point within the tolerance (violation %s > tolerance %s; componentwise relative %s; worst index %s in stage %s)" % (ld.get("ldneed"), ld.get("ldtol"), ld.get("ldrel"), ld.get("ldworst"), ld.get("worstrole"))
+        if bad and info.get("cap") == "1" and solver != 3:
+            acc["cap_nonkkt"][name] = acc["cap_nonkkt"].get(name, 0) + 1; continue
+        if bad:
+            acc["violations_by_kind"][KINDS[11]] = acc["violations_by_kind"].get(KINDS[11], 0) + 1
+            acc["violations_by_solver"][name] = acc["violations_by_solver"].get(name, 0) + 1
+            big_report(ctx, "%s:%s" % (name, "nonfinite" if "non-finite" in bad else "nonkkt"), solver, tolbits, desc, status, f[3], ld, vec,
+                       "%s %s on %s; trace %s" % (name, bad, where, f[3]))
+        else:
+            try:
+                big["worst_need_over_tol"] = max(big["worst_need_over_tol"], float(ld.get("ldneed", "0")) / float(ld.get("ldtol", "1")))
+                acc["worst_rel"][name] = max(acc["worst_rel"].get(name, 0.0), float(ld.get("ldrel", "0")))
+            except (ValueError, ZeroDivisionError): pass
+            acc["distinct"].add((desc, "big", solver, ld.get("positive")))
+    descs = sorted(set(l.split(";")[1].strip() for l in lines if l.startswith("BIG") and ";" in l))
+    acc["big"]["systems"] += len(descs); acc["big"]["n"] += [int(d.split()[1]) for d in descs]
+
+
+def big_stream(ctx, consts, exe, acc, dist, count):
+    """kind 11: large dense staged-release systems; nnls_normal_block_updown and nnls_normal_block3; judged by the harness's long-double KKT residual"""
+    out = os.path.join(ctx.scratch, "c11_big.out")
+    rc, so, err = ctx.run([exe, "big", str(count), out, repr(consts["KKT_TOL"]), "90"], timeout=2400, env={"OMP_NUM_THREADS": "1", "GOTO_NUM_THREADS": "1"})
+    lines = open(out).read().splitlines() if os.path.exists(out) else []
+    if rc != 0 or len(lines) != 2 * count:
+        ctx.tie_ok = False
+        ctx.violation({"harness_rc": rc, "stderr": err[-2000:], "lines": len(lines), "replay_cmd": "VERIF_SEED=%d python3 bin/check.py C11 --tier %s" % (ctx.seed, ctx.tier)},
+                      "NNLS harness (large dense stream) %s (rc=%d, %d of %d result lines): %s" % ("timed out" if rc == 124 else "aborted or truncated", rc, len(lines), 2 * count, err[-600:]))
+    big_judge(ctx, consts, lines, acc)
 
 
 def finish(ctx, acc, dist, consts):
@@ -301,9 +497,34 @@ def finish(ctx, acc, dist, consts):
         "systems with n > 12: B'B + I, or (kinds 9/10) symmetric strictly diagonally dominant with positive diagonal (weighted signed-graph Laplacian + I, possibly scaled D A D by powers of two); symmetry is re-checked exactly by the driver, definiteness of these is by construction",
         "certificate checking: the solvers' convergence for all inputs is not proved (and is false at the iteration caps); iteration-cap exits are counted separately",
         "tolerance tol_i = tolS + negpart*sum|A_ij| + 64 n 2^-53 (sum_j |A_ij| x_j + |b_i|) (Cholesky-based solvers) / tolS + 64 max(n,rows) 2^-53 sum_i(sum_j |A|_ij x_j + |b|_i) (Lawson-Hanson: QR is not invariant under scaling; |A|=|M|'|M|, |b|=|M|'|v| in least-squares form): the rounding term is an envelope for CHOLMOD/SPQR backward error, measured worst componentwise ratio reported per solver",
-        "OMP_NUM_THREADS=1; a scheduling-dependent hang of walk_descents (property C12) is retried up to 3 times and counted",
+        "large dense stream (kind 11, n = 600..2400): the KKT residual is evaluated by the harness in long double (64-bit significand; entries are small integers times powers of two, so every product is exact up to 2^-64 and the sums carry <= n 2^-64 relative to the magnitude, five orders below the rounding term 64 n 2^-53 of the tolerance), not by the verified kktCheck; the same judge is run on every vector of kinds 8-10 and compared with the exact driver (ld_judge_compared / ld_judge_differs)",
+        "OMP_NUM_THREADS=1 (line-search workers and BLAS threads) except on the forced-step corpus, where nnls_normal_block_updown / nnls_normal_block3 also run with 2, 3 and 8 line-search workers; a scheduling-dependent hang of walk_descents (property C12) is retried up to 3 times and counted",
         "Lawson-Hanson relies on SuiteSparseQR's default rank tolerance; badly scaled systems keep column norms within 1e6 of each other (A entries over 1e+-6)",
     ]
+    # forced-step stream: the corpus must still do what it is kept for (otherwise the stream has silently lost its subject), and the
+    # exact state machine must see the forced step where the C run takes it
+    fb = acc["forced_by_threads"]
+    if fb:
+        tot = sum(v["block3_runs"] for v in fb.values()); took = sum(v["runs_with_forced_step_C"] for v in fb.values()); differs = sum(v["count_differs"] for v in fb.values())
+        if ctx.violations == 0 and took < tot // 2:
+            ctx.tie_ok = False; ctx.broken.append({"kind": "forced-step corpus: fewer than half of the nnls_normal_block3 runs took the forced last step of walk_descents", "runs": tot, "took": took})
+        if differs > max(2, tot // 20):
+            ctx.tie_ok = False; ctx.broken.append({"kind": "forced-step corpus: forced steps counted by the exact state machine differ from the C run", "runs": tot, "differ": differs, "samples": acc["forced_diff_samples"]})
+        ctx.note("forced last step of walk_descents on the corpus, by line-search workers (block3 runs / took it in C / in the model / counts differ): %s" % {
+            k: "%d/%d/%d/%d" % (v["block3_runs"], v["runs_with_forced_step_C"], v["runs_with_forced_step_model"], v["count_differs"]) for k, v in sorted(fb.items(), key=lambda kv_: int(kv_[0]))})
+    big = acc["big"]
+    if big["runs"]:
+        b3 = big["by_solver"].get(SOLVERS[3], {})
+        if ctx.violations == 0 and b3.get("runs_with_multirow_add", 0) < max(1, b3.get("runs", 0) // 2):
+            ctx.tie_ok = False; ctx.broken.append({"kind": "large dense stream: modify_factor's multi-row add path (nH2 >= 2 on the full-size factor) is no longer reached by nnls_normal_block3 on most systems", "measured": big["by_solver"]})
+        ctx.note("large dense stream: systems=%d n=%s runs=%d; multi-row adds (runs with a call adding >= 2 rows / calls / max rows / runs with a call deleting >= 2 rows): %s; worst violation/tolerance %.2e; solver time %.1fs" % (
+            big["systems"], sorted(big["n"]), big["runs"], {k.replace("nnls_normal_", ""): "%d of %d/%d/%d/%d" % (v["runs_with_multirow_add"], v["runs"], v["multirow_add_calls"], v["max_rows_in_one_call"], v["runs_with_multirow_delete"]) for k, v in big["by_solver"].items()},
+            big["worst_need_over_tol"], big["secs"]))
+    mi = acc["model_instances"]
+    if mi["block_loop_cases"] or mi["add_rows_cases"]:
+        ctx.note("model instances run by the driver: blockLoop on %d observed (workers, forced index) pairs, n_blocks variant: %s; addRows on %d row sets (%d coupled)" % (
+            mi["block_loop_cases"], mi["n_blocks_variant"], mi["add_rows_cases"], mi["add_rows_coupled"]))
+    ctx.note("long-double judge vs exact driver on kinds 8-10: compared=%d differ=%d; block3 runs that took a forced step (all streams)=%d" % (acc["ld_judge_compared"], acc["ld_judge_differs"], acc["block3_forced_step_runs"]))
     if acc["violations_by_kind"]: ctx.note("not-KKT results by input class: %s by solver: %s" % (acc["violations_by_kind"], acc["violations_by_solver"]))
     ctx.note("row-by-row factor updates (runs with any / with >= 2 rows added / deleted in one call): %s" % {
         k.replace("nnls_normal_", ""): "%d/%d/%d" % (v["runs_with_row_updates"], v["runs_with_multirow_add"], v["runs_with_multirow_delete"]) for k, v in acc["rowmod"].items()})
@@ -317,6 +538,20 @@ def replay(ctx, path):
     print(json.dumps({k: (v if len(str(v)) < 600 else str(v)[:600] + "...") for k, v in r.items()}, indent=1))
     ctx.audit()
     consts = read_constants(ctx)
+    if consts is not None and "descriptor" in r:
+        # large dense stream: regenerate the system from its descriptor, run the one solver, judge
+        exe = build(ctx, "shipped")
+        if not exe:
+            ctx.tie_ok = False; ctx.broken.append({"kind": "harness build failed"}); return
+        out = os.path.join(ctx.scratch, "bigreplay.out")
+        rc, so, err = ctx.run([exe, "bigreplay", out, repr(consts["KKT_TOL"]), "90", str(r["solver"])] + r["descriptor"].split(), timeout=600,
+                              env={"OMP_NUM_THREADS": "1", "GOTO_NUM_THREADS": "1"})
+        acc = new_acc()
+        lines = open(out).read().splitlines() if os.path.exists(out) else []
+        if rc != 0 or not lines:
+            ctx.tie_ok = False; ctx.broken.append({"kind": "bigreplay failed", "rc": rc, "stderr": err[-500:]})
+        big_judge(ctx, consts, lines, acc)
+        finish(ctx, acc, {}, consts); return
     if consts is None or "system_line" not in r or r["system_line"].endswith("..."):
         run(ctx); return
     exe = build(ctx, "shipped")
